@@ -77,7 +77,7 @@ def oracle(name, ib, mb, meta):
     pend = {}; cached = set()
     for i, b in enumerate(ib):
         if b.op.startswith('% mark') or b.fault or not b.op.startswith('frame'): continue
-        ctx, fr = frame_of(b); d = dec(fr + bytes(max(0, 36 - len(fr))))
+        ctx, fr = frame_of(b); d = dec(rxview(b, fr))
         rec.add(ctx)
         live = int(b.kv.get('live', 0)); lives.append((i, live))
         if live > len(rec) * (1 + capf + SLACK):
@@ -100,7 +100,7 @@ def count(name, lines, ib, stats, meta):
     for b in ib:
         if b.op.startswith('frame'):
             stats['evaluations'] += 1
-            ctx, fr = frame_of(b); d = dec(fr + bytes(max(0, 36 - len(fr))))
+            ctx, fr = frame_of(b); d = dec(rxview(b, fr))
             lv = int(b.kv.get('live', 0))
             stats['distinct'].add((d['tos'] if d['tos'] < 3 else 'x', d['opc'] if d['opc'] < 13 else 'x', lv if lv < 4 else ('1025' if lv == 1025 else 'n')))
     if name.startswith('flood_') and len(stats['samples']) < 4:
